@@ -17,7 +17,9 @@ from . import c13
 from .common import parallel_map
 
 RULE = ("cases = (declared graph as in C13 with extra tags, target product, recursive, check, force); every product "
-        "of a graph is a target, flag combinations are sampled so that each graph contributes about 20 removals; a "
+        "of a graph is a target, flag combinations are sampled so that each graph contributes about 20 removals; plus an "
+        "exhaustive family (4 products, every subset of 2 candidate lines per table: 256 graphs x every target x flags; "
+        "all in the thorough tier, 6 graphs otherwise); a "
         "case is non-trivial when the target has a dependency or a user; distinct = distinct (graph, case) digests")
 TRUSTED = c13.TRUSTED + ["the abstract effect of Eups.undeclare (declaration and every tag on that version disappear) is C06's "
                          "subject; here it is observed on the files, not modelled in detail"]
@@ -260,7 +262,18 @@ def run(ctx):
     ctx.hist("corpus", len(cg))
     if cg:
         evaluate(ctx, cg, all_cases=True)
-    n = ctx.n(70, 5000)
+    # exhaustive small family (C13's, two candidate lines per table: 256 graphs), every target and flag combination
+    total = c13.enum_count(2)
+    if ctx.tier == "thorough" or ctx.escalated:
+        ids = list(range(total))
+        ctx.note("exhaustive family: all %d graphs x every target x recursive x check x force" % total)
+    else:
+        ids = [(ctx.seed * 97 + k * 37) % total for k in range(6)]
+    for at in range(0, len(ids), 32):
+        if ctx.out_of_time():
+            break
+        evaluate(ctx, [c13.enum_graph(i, 2) for i in ids[at:at + 32]], all_cases=True)
+    n = ctx.n(85, 5000)
     done = 0
     while done < n and not ctx.out_of_time():
         k = min(40, n - done)
